@@ -29,7 +29,27 @@ a method of a state double) that the engine invokes INSIDE one of those declared
   apply.py batch / per-delta store error fallback                 store.apply_deltas (double; all calls raise / only the batch call raises)
   snapshot.py "Sidecar failure must not break snapshot write"     snapshot._write_sidecar_meta, _deterministic_created_at,
                                                                   atomic_write_text (only for *.meta)
-  core.run_turn "never allow timestamp normalization to break"    core._iso_from_ms (first call only)
+  core.run_turn "never allow timestamp normalization to break"    core._iso_from_ms (first call of each turn)
+  core.run_turn GEL block, pass summary line                      core._append_jsonl for the merge/split/promotion line of gel.jsonl only
+  core.run_turn "cannot build a safe key: bypass the turn-level   t2.core.t2_request_key
+    cache for this turn"
+  apply.py "a malformed result must never trigger the fallback"   store.apply_deltas batch call returning garbage instead of a report
+  apply.py per-delta fallback "continue applying others"          batch call raises and the 1st / 2nd per-delta call raises as well
+  t3/reflect.py _maybe_embed + docs/m10/reflection.md             reflect._EMBED_ADAPTER.encode
+    "All errors (embedding/memory/logging) are fail-soft"
+
+Dimensions added by the hardening pass (each has a label so its frequency shows in the evidence):
+  carry     >=2 (half the time 3) turns on ONE state with the cross-turn consumers switched on: graph.enabled with a fast additive
+            update and a low co-activation threshold, t2.hybrid.enabled with a low edge threshold and a strong graph term (turn N's
+            GEL learning reorders turn N+1's hits: labels carry:hybrid_*), and an LLM fixture file that lets the adapter be built
+            when it is not faulted.  A fault whose effect only shows on LATER turns (boot mark not set so the loader re-runs and
+            resets state.graph, a "circuit breaker" left on the state by an error path) then differs from the idle baseline.
+  arm       transient faults: the spies raise in the first / the last turn only (boot spies stay armed throughout); the per-turn
+            baseline switches the subsystem off in exactly the turns in which the fault fired.
+  exc_extra 20 more Exception subclasses (builtins outside the 8, non-trivial constructors, args == (), ExceptionGroup, the repo's
+            own SnapshotError / SnapshotSchemaError / LLMAdapterError), 2 per site and world in `sites`, drawn in `combos`.
+  GEL       two components over non-episode ids (strong triangle, two pairs + weak bridge) keep a merge/promotion and a split
+            candidate alive in every turn whatever the observation of retrieved episodes does to the rest of the graph.
 
 NOT declared (left out, reported in evidence notes only): gel_observe / gel_tick are called without a guard and the docs
 only call them "optional" in the sense of "gated by graph.enabled"; core.emit_trace as a whole (run_turn calls it
@@ -61,6 +81,7 @@ import copy
 import json
 import os
 import random
+import re
 import shutil
 import subprocess
 import sys
@@ -76,7 +97,9 @@ RULE = ("sites: for each generated world (1-2 concept graphs, 5-7 episodes shari
         "graph with a strong triangle + weak bridge so merge/split/promotion/hybrid have work, injected proposed deltas, "
         "1-3 turns, random profile of other optional subsystems switched on) x every declared site x 8 exception types "
         "(ValueError, KeyError, TypeError, RuntimeError, OSError, ZeroDivisionError, AttributeError, custom Exception "
-        "subclass) x mode (raise instead of the call; for 8 sites also raise after the call did its work): the callable at the "
+        "subclass) + 2 of 20 further Exception subclasses x mode (raise instead of the call; for 8 sites also raise after the call "
+        "did its work) x carry (cross-turn consumers on: GEL learning -> hybrid rerank of the next turn, buildable LLM adapter; "
+        ">=2 turns) x arming (every turn / first turn only / last turn only): the callable at the "
         "site is shadowed by a spy that raises; a case is NON-TRIVIAL only when the spy "
         "was really hit (fault reached) and the world had t1.pops>0 and t2.k_returned>0; distinct = (site, exception, "
         "world digest). combos: same with 2-3 compatible sites faulted at once, non-trivial = >=2 faults reached. "
@@ -109,12 +132,58 @@ ASSUMPTIONS = [
     "a baseline run that itself raises is not C20's business: the case is skipped and labelled baseline_raises",
     "boot entries never use the name state_<agent>.json for a DIRECTORY: that breaks the snapshot BODY write, which is not "
     "a declared fail-soft site",
+    "transient faults (arm first/last): the baseline runs the SAME state through per-turn configs, the subsystem being off only in "
+    "the turns in which the fault fired; two arm values are not generated where config cannot mirror them (cache-key fault in the "
+    "last turn only: the cache manager created earlier stays on the state; embedding fault in some turns only: an unarmed turn "
+    "would add a 32-dim vector to a bag-of-words index)",
+    "store report faults: a batch call that returns garbage leaves apply.jsonl applied/clamps open (masked), everything else must "
+    "equal the run with a well-behaved store; batch + one per-delta call raising => baseline store reports one edit less in "
+    "exactly the turns in which that per-delta call was reached",
+    "bootfiles class garbage_picked_valid_unpicked is completion-only: whether a loader may fall back to an older valid file is "
+    "not C20's business",
 ]
 
 CUSTOM = type("InjectedCustomError", (Exception,), {})
+
+
+class InjectedBareError(Exception):
+    """Raised WITHOUT arguments (args == ()): a handler that formats e.args[0] must survive it."""
+
+    def __str__(self):
+        return "injected fault (C20) at " + str(getattr(self, "site", "?"))
+
+
 EXC = {"ValueError": ValueError, "KeyError": KeyError, "TypeError": TypeError, "RuntimeError": RuntimeError,
        "OSError": OSError, "ZeroDivisionError": ZeroDivisionError, "AttributeError": AttributeError, "Custom": CUSTOM}
-EXC_NAMES = list(EXC)
+EXC_NAMES = list(EXC)  # enumerated in full for every site
+# further Exception subclasses, sampled (2 per site and world in `sites`, drawn in `combos`): builtins outside the eight above,
+# exceptions with a non-trivial constructor, an exception carrying no args, an ExceptionGroup, and the repo's OWN error
+# hierarchies (a guard narrowed to "the documented error type of that subsystem" must not pass because only that type is thrown)
+EXC_EXTRA = ["AssertionError", "IndexError", "LookupError", "StopIteration", "RecursionError", "MemoryError", "NotImplementedError",
+             "ImportError", "OverflowError", "UnicodeDecodeError", "JSONDecodeError", "FileNotFoundError", "PermissionError",
+             "TimeoutError", "EOFError", "ExceptionGroup", "Bare", "SnapshotError", "LLMAdapterError", "SnapshotSchemaError"]
+
+
+def make_exc(exc_name: str, site_name: str) -> BaseException:
+    msg = "injected fault (C20) at " + site_name
+    if exc_name in EXC:
+        return EXC[exc_name](msg)
+    if exc_name == "UnicodeDecodeError":
+        return UnicodeDecodeError("utf-8", b"\xff", 0, 1, msg)
+    if exc_name == "JSONDecodeError":
+        return json.JSONDecodeError(msg, "{", 0)
+    if exc_name == "ExceptionGroup":
+        return ExceptionGroup(msg, [ValueError(msg), CUSTOM(msg)])  # noqa: F821 (py>=3.11)
+    if exc_name == "Bare":
+        e = InjectedBareError()
+        e.site = site_name
+        return e
+    if exc_name in ("SnapshotError", "SnapshotSchemaError"):
+        return getattr(_mod(M_SNAP), exc_name)(msg)
+    if exc_name == "LLMAdapterError":
+        return _mod("clematis.adapters.llm").LLMAdapterError(msg)
+    import builtins
+    return getattr(builtins, exc_name)(msg)
 FIVE = ["t1.jsonl", "t2.jsonl", "t4.jsonl", "apply.jsonl", "turn.jsonl"]
 
 M_CORE = "clematis.engine.orchestrator.core"
@@ -168,11 +237,18 @@ _site("gel.split_candidates", "gel", ("mod", M_CORE, "gel_split_candidates"), on
 _site("gel.apply_split", "gel", ("mod", M_CORE, "gel_apply_split"), on=GEL_ON, off=_gel_off("split"), needs=("gel",))
 _site("gel.promote_clusters", "gel", ("mod", M_CORE, "gel_promote_clusters"), on=GEL_ON, off=_gel_off("promotion"), needs=("gel",))
 _site("gel.apply_promotion", "gel", ("mod", M_CORE, "gel_apply_promotion"), on=GEL_ON, off=_gel_off("promotion"), needs=("gel",))
+# the pass summary line of gel.jsonl is written INSIDE the guarded block (the observe / decay lines are not): a failing append there
+# is a failure of the maintenance block; all passes have run, so the baseline is the same run without fault
+_site("gel.summary_log_append", "gellog", ("mod", M_CORE, "_append_jsonl"), on=GEL_ON, when="gelmsp", needs=("gel",))
 # --- reflection compute
 _site("reflect.reflect", "reflect", ("mod", M_REFLECT, "reflect"), on=REFL_ON, off=REFL_OFF, needs=("reflection",))
 _site("reflect._normalize", "reflect", ("mod", M_REFLECT, "_normalize"), on=REFL_ON, off=REFL_OFF, needs=("reflection",))
 _site("reflect._safe_extract_snippets", "reflect", ("mod", M_CORE, "_safe_extract_snippets"), on=REFL_ON, off=REFL_OFF, needs=("reflection",))
 _site("reflect.ReflectionBundle", "reflect", ("mod", M_CORE, "ReflectionBundle"), on=REFL_ON, off=REFL_OFF, needs=("reflection",))
+# docs/m10/reflection.md: "All errors (embedding/memory/logging) are fail-soft": the summary embedding; baseline = embed off
+_site("reflect.embed_encode", "reflembed", ("objattr", M_REFLECT, "_EMBED_ADAPTER", "encode"),
+      on=world.deep_merge(REFL_ON, {"t3": {"reflection": {"embed": True}}}), off={"t3": {"reflection": {"embed": False}}},
+      needs=("reflection",))
 # --- reflection write
 for _a in ("write_reflection_entries", "_choose_index", "_episode_id", "_normalize_entry", "_now_iso_from_ctx"):
     _site("reflwrite." + _a, "reflwrite", ("mod", M_REFL_W, _a), on=REFL_ON, off=REFL_OFF, needs=("reflection",))
@@ -207,6 +283,16 @@ _site("cache.invalidate_namespace", "cache", ("cls", M_CACHE, "CacheManager", "i
 # --- store apply errors
 _site("store.all_calls", "store", ("state", "store_all"), needs=("deltas",), base="store_idle", tags=("store",))
 _site("store.batch_call", "store", ("state", "store_batch"), needs=("deltas",), tags=("store",))
+# the batch call raises AND one call of the per-delta fallback raises too ("continue applying others"): the baseline is a store that
+# is idle for exactly that delta (reports one edit less), in exactly the turns in which that per-delta call was reached
+_site("store.batch_and_one_delta", "store", ("state", "store_kth"), needs=("deltas",), tags=("store",))
+# a store whose batch call "succeeds" but reports garbage (apply.py: "a malformed result must never trigger the per-delta
+# fallback"): only the counts taken from that report (apply.jsonl applied / clamps) are left open, everything else must equal
+# the run with a well-behaved store
+_site("store.malformed_result", "store", ("state", "store_malformed"), needs=("deltas",), tags=("store", "mask_applied"))
+# --- turn-level T2 result cache: "cannot build a safe key: bypass the turn-level cache for this turn"
+_site("cachekey.t2_request_key", "cachekey", ("mod", "clematis.engine.stages.t2.core", "t2_request_key"),
+      on={"t4": {"cache": {"enabled": True}}}, off={"t4": {"cache": {"enabled": False}}})
 # --- snapshot sidecar
 _site("sidecar._write_sidecar_meta", "sidecar", ("mod", M_SNAP, "_write_sidecar_meta"), on=SNAP_EVERY_TURN, needs=("snapshot",))
 _site("sidecar._deterministic_created_at", "sidecar", ("mod", M_SNAP, "_deterministic_created_at"), on=SNAP_EVERY_TURN, needs=("snapshot",))
@@ -215,6 +301,14 @@ _site("sidecar.atomic_write_text", "sidecar", ("mod", M_SNAP, "atomic_write_text
 _site("ts._iso_from_ms", "ts", ("mod", M_CORE, "_iso_from_ms"), when="first")
 
 SITE_NAMES = list(SITES)
+# transient-fault arming a site's off/idle baseline cannot mirror: a cache manager created in an earlier fault-free turn stays on
+# the state, so "t4.cache.enabled=false in the last turn only" is not a run without the turn-level cache
+# ... and an unarmed turn of the embedding site would add a 32-dim vector to a bag-of-words (12-dim) index
+ARMS_EXCLUDED = {"cachekey.t2_request_key": ("last",), "reflect.embed_encode": ("first", "last")}
+
+
+def arm_for(names, arm):
+    return "all" if any(arm in ARMS_EXCLUDED.get(n, ()) for n in names) else arm
 # sites also faulted in mode "after" (the callable completes its work, then raises): the baseline is the same run without fault
 AFTER_OK = ["boot.load_latest_snapshot", "reflwrite.write_reflection_entries", "reflwrite.index_add", "refllog.log_t3_reflection",
             "refllog.append_jsonl", "cache.invalidate_namespace", "sidecar._write_sidecar_meta", "sidecar.atomic_write_text"]
@@ -236,8 +330,29 @@ def _fast_tmp():
 TOPICS = ["apple", "pear", "kiwi", "fig", "plum"]
 
 
-def gen_world(rng: random.Random, boot: bool = False) -> dict:
-    """A small world in which every optional subsystem has work to do. Plain JSON."""
+# "carry" = what one turn leaves on the shared state is consumed by the next turn's canonical records: GEL learning
+# (graph.enabled, fast additive update, low co-activation threshold) feeding the hybrid rerank of t2.jsonl (low edge threshold,
+# strong graph term so hits really reorder), and an LLM adapter that CAN be built when t3.backend=llm (fixture file in the
+# sandbox; "<FX>" is replaced by its path) so a turn after a failed construction is distinguishable from a rule-based one.
+FX_PLACEHOLDER = "<FX>"
+
+
+def carry_cfg(tune: dict) -> dict:
+    return {"graph": {"enabled": True, "coactivation_threshold": tune.get("coact", 0.0), "update": {"alpha": tune.get("alpha", 0.3)}},
+            "t2": {"hybrid": {"enabled": True, "edge_threshold": tune.get("edge_threshold", 0.05),
+                              "lambda_graph": tune.get("lambda_graph", 1.0), "max_bonus": tune.get("max_bonus", 1.0),
+                              "walk_hops": tune.get("walk_hops", 1)}},
+            "t3": {"llm": {"fixtures": {"enabled": True, "path": FX_PLACEHOLDER}}}}
+
+
+def gen_tune(rng: random.Random) -> dict:
+    return {"alpha": rng.choice([0.2, 0.3, 0.5]), "coact": rng.choice([0.0, 0.0, 0.05]), "edge_threshold": rng.choice([0.05, 0.1]),
+            "lambda_graph": rng.choice([0.5, 1.0]), "max_bonus": rng.choice([0.5, 1.0]), "walk_hops": rng.choice([1, 1, 2])}
+
+
+def gen_world(rng: random.Random, boot: bool = False, carry=None) -> dict:
+    """A small world in which every optional subsystem has work to do. Plain JSON.
+    carry: True = force a multi-turn history with the cross-turn consumers on; None = by chance; False = never."""
     topic, other, third = rng.sample(TOPICS, 3)
     enc = rng.choice(["bow", "bow", "native"])
     n_eps = rng.randint(5, 7)
@@ -279,7 +394,16 @@ def gen_world(rng: random.Random, boot: bool = False) -> dict:
     edge(tri[0], tri[2], rng.choice([0.4, 0.8, -0.5]))
     edge(tri[2], pair[0], rng.choice([0.01, 0.02, 0.04]))
     edge(pair[0], pair[1], rng.choice([0.3, 0.7]))
-    gel = {"nodes": {i: {"id": i} for i in ids}, "edges": ge, "meta": {}}
+    # two components over ids that are NOT episodes (never retrieved, so GEL observation never touches them): a strong triangle
+    # (a merge / promotion candidate in every turn) and two strong pairs joined by a weak bridge (a split candidate in every turn),
+    # whatever the learning rate does to the episode part of the graph
+    edge("m1", "m2", rng.choice([0.6, 0.9]))
+    edge("m2", "m3", rng.choice([0.5, 0.7]))
+    edge("m1", "m3", rng.choice([0.4, 0.8]))
+    edge("s1", "s2", rng.choice([0.6, 0.8]))
+    edge("s2", "s3", rng.choice([0.01, 0.03]))
+    edge("s3", "s4", rng.choice([0.5, 0.7]))
+    gel = {"nodes": {i: {"id": i} for i in ids + ["m1", "m2", "m3", "s1", "s2", "s3", "s4"]}, "edges": ge, "meta": {}}
     n_turns = rng.choice([1, 2, 2, 3])
     turns = []
     for t in range(n_turns):
@@ -295,6 +419,15 @@ def gen_world(rng: random.Random, boot: bool = False) -> dict:
     if boot:
         w["version"] = None
         w["boot"] = rng.choice(["none", "garbage", "own"])
+    # drawn last so that the rest of the world does not depend on the new dimension
+    tune = gen_tune(rng)
+    extra = {"agent": rng.choice(["A", "A", "B"]), "text": rng.choice([topic, f"{topic} {other}", f"{third} {topic}"]),
+             "deltas": [{"k": "node", "id": "n:a", "v": 0.1}], "tid": "int"}
+    by_chance = rng.random() < 0.35
+    if carry or (carry is None and by_chance):
+        w["carry"] = tune
+        if len(w["turns"]) < 2:
+            w["turns"].append(extra)
     return w
 
 
@@ -319,7 +452,16 @@ def profile_cfg(w: dict) -> dict:
         o = world.deep_merge(o, {"perf": {"enabled": True, "metrics": {"report_memory": True}}})
     if p.get("llm"):
         o = world.deep_merge(o, {"t3": {"backend": "llm"}})
+    if w.get("carry"):
+        o = world.deep_merge(o, carry_cfg(w["carry"]))
     return o
+
+
+def _subst_fx(o, path):
+    """config overrides with the fixture placeholder replaced by the sandbox path."""
+    if isinstance(o, dict):
+        return {k: _subst_fx(v, path) for k, v in o.items()}
+    return path if o == FX_PLACEHOLDER else o
 
 
 _VEC_CACHE = {}
@@ -360,6 +502,17 @@ class _Env:
         self.turn = 0
         self.raised_by_turn = {}  # turn index (0-based) -> set of site names that raised during that turn
         self.store_mode = "ok"
+        self.armed_turns = None   # None = every turn; else a set of 0-based turn indices in which the spies raise
+        self.hits_turn = {}       # (site, turn) -> armed entries during that turn (for when="first")
+        self.loader_calls = 0
+        self.kth_fired = set()    # turns in which the per-delta call of store.batch_and_one_delta really raised
+
+    def armed(self, site=None) -> bool:
+        """Transient faults: outside the armed turns a spy simply calls through. The boot hook runs once per state (turn 1
+        on an intact tree), so boot sites stay armed throughout -- a loader that is wrongly re-run later still meets the fault."""
+        if self.armed_turns is None or (site is not None and site["group"] == "boot"):
+            return True
+        return self.turn in self.armed_turns
 
     def mark(self, name):
         self.raised[name] = self.raised.get(name, 0) + 1
@@ -371,20 +524,23 @@ def _mk_raiser(env: _Env, site: dict, exc_name: str, orig, mode="before"):
     when = site["when"]
 
     def spy(*a, **k):
-        armed = True
+        armed = env.armed(site)
         if when == "boot":
-            armed = env.in_boot
+            armed = armed and env.in_boot
         elif when == "meta":
-            armed = bool(a) and str(a[0]).endswith(".meta")
-        elif when == "first":
-            armed = env.hits.get(name, 0) == 0
+            armed = armed and bool(a) and str(a[0]).endswith(".meta")
+        elif when == "gelmsp":
+            armed = armed and len(a) >= 2 and str(a[0]) == "gel.jsonl" and isinstance(a[1], dict) and "merge_attempts" in a[1]
+        elif when == "first":  # the first call of each (armed) turn
+            armed = armed and env.hits_turn.get((name, env.turn), 0) == 0
         if not armed:
             return orig(*a, **k)
         env.hits[name] = env.hits.get(name, 0) + 1
+        env.hits_turn[(name, env.turn)] = env.hits_turn.get((name, env.turn), 0) + 1
         if mode == "after":  # the callable does its work, then fails (e.g. the report / return value is lost)
             orig(*a, **k)
         env.mark(name)
-        raise EXC[exc_name]("injected fault (C20) at " + name)
+        raise make_exc(exc_name, name)
 
     return spy
 
@@ -418,16 +574,30 @@ class _RaisingIndex:
     mode 'after': the episode is added to the real index first."""
     kind = "inmemory"
 
-    def __init__(self, env, site, exc_name, real=None):
-        self._env, self._site, self._exc, self._real = env, site, exc_name, real
+    def __init__(self, env, site, exc_name, real, after=False):
+        self._env, self._site, self._exc, self._real, self._after = env, site, exc_name, real, after
 
     def add(self, *a, **k):
         n = self._site["name"]
+        if not self._env.armed(self._site):
+            return self._real.add(*a, **k)
         self._env.hits[n] = self._env.hits.get(n, 0) + 1
-        if self._real is not None:
+        if self._after:
             self._real.add(*a, **k)
         self._env.mark(n)
-        raise EXC[self._exc]("injected fault (C20) at " + n)
+        raise make_exc(self._exc, n)
+
+
+class _NoGet:
+    def get(self, *a, **k):
+        raise RuntimeError("injected fault (C20) at store report .get")
+
+
+def _malformed_report(i: int):
+    """What a broken store might hand back instead of {'edits': n, 'clamps': m} (none of them is a usable count)."""
+    pool = [None, "ok", [], {"edits": "many", "clamps": None}, {"edits": None, "clamped": {}}, {"edits": [1], "clamps": "x"},
+            _NoGet(), {"edits": float("nan"), "clamps": float("inf")}, 7, {"result": {"edits": 3}}]
+    return pool[i % len(pool)]
 
 
 def _store_double(env, site=None, exc_name=None):
@@ -440,11 +610,23 @@ def _store_double(env, site=None, exc_name=None):
         env.store_calls += 1
         first = env.store_calls == 1
         mode = env.store_mode
-        if mode == "all" or (mode == "batch" and first):
+        kth = 0
+        if mode == "kth":  # which per-delta call fails: the 1st or the 2nd (call 1 is the batch)
+            kth = 2 + (EXC_NAMES.index(exc_name) % 2 if exc_name in EXC_NAMES else len(exc_name) % 2)
+        if mode == "all" or (mode in ("batch", "kth") and first) or (kth and env.store_calls == kth):
             n = site["name"]
             env.hits[n] = env.hits.get(n, 0) + 1
             env.mark(n)
-            raise EXC[exc_name]("injected fault (C20) at " + n)
+            if kth and not first:
+                env.kth_fired.add(env.turn)
+            raise make_exc(exc_name, n)
+        if mode == "minus1":  # baseline of "kth": idle for one delta
+            return {"edits": max(0, len(deltas) - 1), "clamps": 0}
+        if mode == "malformed" and first:
+            n = site["name"]
+            env.hits[n] = env.hits.get(n, 0) + 1
+            env.mark(n)
+            return _malformed_report(EXC_NAMES.index(exc_name) if exc_name in EXC_NAMES else len(exc_name))
         if mode == "idle":
             return {"edits": 0, "clamps": 0}
         return {"edits": len(deltas), "clamps": 0}
@@ -461,13 +643,17 @@ def install_faults(env: _Env, eng, faults):
             m = _mod(p[1])
             orig = getattr(m, p[2])
             _patch_attr(env, m, p[2], _mk_raiser(env, site, exc_name, orig, mode))
+        elif p[0] == "objattr":
+            obj = getattr(_mod(p[1]), p[2])
+            orig = getattr(obj, p[3])
+            _patch_attr(env, obj, p[3], _mk_raiser(env, site, exc_name, orig, mode))
         elif p[0] == "cls":
             cls = getattr(_mod(p[1]), p[2])
             orig = getattr(cls, p[3])
             _patch_attr(env, cls, p[3], _mk_raiser(env, site, exc_name, orig, mode))
         elif p[1] == "memory_index_add":
-            eng.state["memory_index"] = _RaisingIndex(env, site, exc_name, eng.state["mem_index"] if mode == "after" else None)
-        elif p[1] in ("store_all", "store_batch"):
+            eng.state["memory_index"] = _RaisingIndex(env, site, exc_name, eng.state["mem_index"], after=(mode == "after"))
+        elif p[1] in ("store_all", "store_batch", "store_malformed", "store_kth"):
             store_mode = (p[1].split("_")[1], site, exc_name)
         else:
             raise RuntimeError(f"unknown patch {p!r}")
@@ -542,9 +728,20 @@ def entry_bytes(e) -> bytes:
     raise RuntimeError(f"unknown generator {g!r}")
 
 
-def run_world(w: dict, over: dict, faults, *, boot_entries=None, booting=False, store="ok", keep_snap=False, store_w=False):
+def armed_turns(arm, n_turns):
+    """arm: None/"all" -> every turn; "first" / "last" -> that turn only; a list of 0-based indices -> those turns."""
+    if arm in (None, "all"):
+        return None
+    if arm == "first":
+        return {0}
+    if arm == "last":
+        return {n_turns - 1}
+    return {int(i) for i in arm}
+
+
+def run_world(w: dict, over: dict, faults, *, boot_entries=None, booting=False, store="ok", keep_snap=False, store_w=False, arm=None):
     """Run all turns of world `w` under config overrides `over` (one dict, or a list with one dict per turn; `store`
-    likewise) with `faults` installed.
+    likewise) with `faults` installed (raising only in the turns selected by `arm`).
     Returns dict(exc, lines, logs (all canonical incl. health), counts, hits, raised, nontrivial_world, snaps)."""
     import clematis.engine.orchestrator as orch
     import clematis.engine.orchestrator.core as core
@@ -552,9 +749,13 @@ def run_world(w: dict, over: dict, faults, *, boot_entries=None, booting=False, 
 
     world.reset_engine_globals()
     env = _Env()
+    env.armed_turns = armed_turns(arm, len(w["turns"]))
     out = {"exc": [], "lines": []}
     with world.sandbox() as root:
         eng = observe.Engine(engine_spec(w), root, encoder=("bow" if w["enc"] == "bow" else None))
+        fx_path = os.path.join(root, "cwd", "fx.jsonl")  # a loadable (if unhelpful) LLM fixture file, see carry_cfg
+        with open(fx_path, "w", encoding="utf-8") as fh:
+            fh.write(json.dumps({"prompt_hash": "0" * 64, "completion": "fixture completion"}) + "\n")
         eng.state["_planner_reflection_flag"] = True  # the rule-based planner never sets Plan.reflection; only matters when allowed
         if store_w:
             eng.state["store"].w = {("node", "n:a", "weight"): 0.5}
@@ -579,6 +780,7 @@ def run_world(w: dict, over: dict, faults, *, boot_entries=None, booting=False, 
             orig_read = snapmod._read_text
 
             def load_wrapper(ctx, state):
+                env.loader_calls += 1
                 env.in_boot = True
                 try:
                     return orig_load(ctx, state)
@@ -603,11 +805,14 @@ def run_world(w: dict, over: dict, faults, *, boot_entries=None, booting=False, 
                 cur["t"] = t
                 env.store_calls = 0
                 env.turn = i - 1
-                env.store_mode = store_mode[0] if store_mode is not None else (store[i - 1] if isinstance(store, list) else store)
+                if store_mode is not None:
+                    env.store_mode = store_mode[0] if env.armed() else "ok"
+                else:
+                    env.store_mode = store[i - 1] if isinstance(store, list) else store
                 ov = over[i - 1] if isinstance(over, list) else over
                 ck = id(ov)
                 if ck not in cfgs:
-                    cfgs[ck] = eng.cfg(ov)
+                    cfgs[ck] = eng.cfg(_subst_fx(ov, fx_path))
                 cfg = cfgs[ck]
                 tid = i if t.get("tid", "int") == "int" else str(i)
                 r = eng.turn(t["agent"], t["text"], cfg, tid, world.NOW_MS + i * 1000)
@@ -635,6 +840,8 @@ def run_world(w: dict, over: dict, faults, *, boot_entries=None, booting=False, 
         out["raised"] = dict(env.raised)
         out["raised_by_turn"] = [sorted(env.raised_by_turn.get(i, ())) for i in range(len(w["turns"]))]
         out["boot_reads"] = list(env.boot_reads)
+        out["loader_calls"] = env.loader_calls
+        out["kth_fired"] = sorted(env.kth_fired)
         out["version"] = eng.state.get("version_etag")
         if keep_snap:
             out["snaps"] = {k: v for k, v in eng.snaps().items() if not k.endswith(".meta")}
@@ -756,11 +963,13 @@ def check_faults(case, rec=None, labels_extra=()):
             boot_entries = [{"name": "state_A.json", "kind": "file", "text": '{"version_etag": "9", "store"'}]
         elif w["boot"] == "own":
             boot_entries = [{"name": "state_A.json", "kind": "file", "gen": "own"}]
-    f = run_world(w, on, faults, boot_entries=boot_entries, booting=booting, keep_snap=True)
+    arm = case.get("arm")
+    f = run_world(w, on, faults, boot_entries=boot_entries, booting=booting, keep_snap=True, arm=arm)
     fired_any = set().union(*map(set, f["raised_by_turn"])) if f["raised_by_turn"] else set()
     _, off = effective_cfgs(w, faults, f["raised_by_turn"])
     # store double of the baseline, per turn: idle in the turns in which every store call raised
-    base_store = ["idle" if any(s["base"] == "store_idle" and s["name"] in fired for s in before) else "ok" for fired in f["raised_by_turn"]]
+    base_store = ["idle" if any(s["base"] == "store_idle" and s["name"] in fired for s in before) else
+                  ("minus1" if ti in f["kth_fired"] else "ok") for ti, fired in enumerate(f["raised_by_turn"])]
     # late boot faults on a valid snapshot: part of the snapshot was already imported -> only completion is demanded
     completion_only = any("boot_late" in s["needs"] and s["name"] in fired_any for s in before)
     # a boot fault that fired => baseline = empty snapshot dir; otherwise the baseline keeps the planted entries
@@ -773,7 +982,8 @@ def check_faults(case, rec=None, labels_extra=()):
         # is it the injected fault that escaped, or something else?
         escaped = "injected fault (C20)" in bad[0]
         if escaped:
-            which = bad[0].split(" at ")[-1].strip("'\" ")
+            m = re.search(r"injected fault \(C20\) at ([A-Za-z_][\w.]*)", bad[0])
+            which = m.group(1) if m else bad[0].split(" at ")[-1].strip("'\" ")
             group = SITES[which]["group"] if which in SITES else which
             raise Violation(f"fault {bad[0]!r} injected at declared fail-soft site escaped run_turn (turn {len(f['exc'])}); "
                             f"sites {names}", case, f"escape:{group}")
@@ -801,6 +1011,7 @@ def check_faults(case, rec=None, labels_extra=()):
         any("t2q" in s["tags"] for s in sites)
     # invalidation done, then the call failed: the count is lost (0 instead of n) -- the one field that may differ
     mask_inv = any(s["group"] == "cache" and m == "after" for s, _, m in faults)
+    mask_applied = any("mask_applied" in s["tags"] and s["name"] in fired_any for s in sites)
     labels = list(labels_extra)
     if not completion_only:
         for k in FIVE:
@@ -809,6 +1020,9 @@ def check_faults(case, rec=None, labels_extra=()):
                 fa, ba = _mask_t2q(fa), _mask_t2q(ba)
             if mask_inv and k == "apply.jsonl":
                 fa, ba = _mask_field(fa, "cache_invalidations"), _mask_field(ba, "cache_invalidations")
+            if mask_applied and k == "apply.jsonl":
+                for fld in ("applied", "clamps"):
+                    fa, ba = _mask_field(fa, fld), _mask_field(ba, fld)
             if fa != ba:
                 if k == "t2.jsonl" and "quality.maybe_apply_mmr" in fired_any and _only_fusion_telemetry_lost(fa, ba):
                     # finding mmr-fault-drops-fusion-telemetry: exactly the fusion layer's own fields are missing, nothing else
@@ -836,11 +1050,28 @@ def check_faults(case, rec=None, labels_extra=()):
             nt = len(reached) >= 2 and f["nontrivial_world"]
         for nme in names:
             labels.append(("reached:" if f["raised"].get(nme) else "unreached:") + nme)
-        labels += [f"turns={n}", f"enc={w['enc']}"] + (["mask_t2q"] if mask else []) + (["mask_cache_invalidations"] if mask_inv else [])
+        labels += [f"turns={n}", f"enc={w['enc']}"] + (["mask_t2q"] if mask else []) + (["mask_cache_invalidations"] if mask_inv else []) + \
+            (["mask_applied"] if mask_applied else [])
         labels += ["mode:after" for _, _, m in faults if m == "after"]
+        labels.append("arm:" + (arm if isinstance(arm, str) else ("all" if arm is None else "list")))
+        if w.get("sparse"):
+            labels.append("sparse_world")
+        if w.get("carry"):
+            labels.append("carry")
+            # did this turn sequence really consume what an earlier turn left on the state?
+            t2recs = [json.loads(ln) for ln in b["logs"]["t2.jsonl"].splitlines()]
+            if any((r.get("hybrid") or {}).get("k_reordered") for r in t2recs[1:]):
+                labels.append("carry:hybrid_reordered_later_turn")
+            elif any(r.get("hybrid") for r in t2recs[1:]):
+                labels.append("carry:hybrid_block_later_turn")
+        for _, en, _ in faults:
+            if en not in EXC:
+                labels.append("exc_extra:" + en)
+        if f["loader_calls"] > 1:
+            labels.append("loader_ran_more_than_once")
         if not f["nontrivial_world"]:
             labels.append("trivial_world")
-        rec.case(nontrivial=nt, dig=digest([sorted(map(list, case["faults"])), digest(w)]) if nt else None, labels=labels,
+        rec.case(nontrivial=nt, dig=digest([sorted(map(list, case["faults"])), arm, digest(w)]) if nt else None, labels=labels,
                  sample={"faults": case["faults"], "reached": reached, "turns": [t["text"] for t in w["turns"]],
                          "profile": sorted(k for k, v in (w.get("profile") or {}).items() if v), "enc": w["enc"]} if nt else None)
 
@@ -902,6 +1133,14 @@ def _variants(case):
             c = copy.deepcopy(case)
             del c["faults"][i]
             yield c
+    if case.get("arm") not in (None, "all"):
+        c = copy.deepcopy(case)
+        c.pop("arm")
+        yield c
+    if w.get("carry"):
+        c = copy.deepcopy(case)
+        c["world"].pop("carry")
+        yield c
 
 
 def minimise(case, checker, sig, budget=120):
@@ -952,26 +1191,73 @@ def _guarded(rec, case, checker, seen_sigs, labels_extra=()):
 # sub-check: sites (every site x exception type x worlds)
 # =====================================================================================================
 
-def sub_sites(rec, seed, shard, nshards, worlds=4):
+def with_carry(w: dict, rng: random.Random) -> dict:
+    """Copy of `w` with the cross-turn consumers on (see carry_cfg) and at least two turns on the one state."""
+    c = copy.deepcopy(w)
+    c["carry"] = c.get("carry") or gen_tune(rng)
+    want = 3 if rng.random() < 0.5 else 2  # a write made after T2 of turn k+1 (reflection entry) only shows in turn k+2's records
+    while len(c["turns"]) < want:
+        t = copy.deepcopy(c["turns"][len(c["turns"]) % 2 if len(c["turns"]) > 1 else 0])
+        t["agent"] = rng.choice(["A", "A", "B"])
+        c["turns"].append(t)
+    return c
+
+
+def sparsify(w: dict) -> dict:
+    """Degenerate variant: the optional subsystems are switched on but have (almost) nothing to work on -- no GEL edges, no
+    proposed deltas, a query outside the vocabulary.  Error handlers must not assume progress was made before the fault."""
+    c = copy.deepcopy(w)
+    if c.get("gel"):
+        c["gel"]["edges"] = {}
+    for t in c["turns"]:
+        t["deltas"] = []
+        t["text"] = "zzz"
+    c["sparse"] = True
+    return c
+
+
+def without_carry(w: dict) -> dict:
+    c = copy.deepcopy(w)
+    c.pop("carry", None)
+    return c
+
+
+# (carry, arm) per variant index: every site meets a transient fault (first / last turn only) and a permanent one, each with the
+# cross-turn consumers on and off; the offset (site index + world index) rotates the pairing with the exception types
+_VARIANT_PLAN = [(False, "all"), (True, "all"), (False, "first"), (True, "first"), (False, "all"), (True, "last"), (False, "last"), (True, "all")]
+
+
+def sub_sites(rec, seed, shard, nshards, worlds=4, extras=2):
     _fast_tmp()
     rng = random.Random(seed)
     seen_sigs = set()
     idx = 0
     for wi in range(worlds):
-        w_plain = gen_world(rng, boot=False)
-        w_boot = gen_world(rng, boot=True)
-        for name in SITE_NAMES:
+        w0, b0 = gen_world(rng, boot=False), gen_world(rng, boot=True)
+        plain = {False: without_carry(w0), True: with_carry(w0, rng)}
+        bootw = {False: without_carry(b0), True: with_carry(b0, rng)}
+        for si, name in enumerate(SITE_NAMES):
             site = SITES[name]
-            w = w_plain
-            if "boot" in site["needs"]:
-                w = copy.deepcopy(w_boot)
-                kinds = BOOT_KINDS.get(name, ["none", "garbage", "own"])
-                w["boot"] = w_boot["boot"] if w_boot["boot"] in kinds else kinds[wi % len(kinds)]
-            for exc_name, mode in [(e, "before") for e in EXC_NAMES] + ([(e, "after") for e in EXC_NAMES] if name in AFTER_OK else []):
+            is_boot = "boot" in site["needs"]
+            variants = [(e, "before") for e in EXC_NAMES] + ([(e, "after") for e in EXC_NAMES] if name in AFTER_OK else [])
+            variants += [(EXC_EXTRA[(si * extras + wi * 7 + j) % len(EXC_EXTRA)], "before") for j in range(extras)]
+            for k, (exc_name, mode) in enumerate(variants):
                 idx += 1
                 if idx % nshards != shard:
                     continue
-                _guarded(rec, {"world": w, "faults": [[name, exc_name] + ([mode] if mode == "after" else [])]}, check_faults, seen_sigs)
+                carry, arm = _VARIANT_PLAN[(k + si + wi) % len(_VARIANT_PLAN)]
+                if is_boot:
+                    w = copy.deepcopy(bootw[carry])
+                    kinds = BOOT_KINDS.get(name, ["none", "garbage", "own"])
+                    w["boot"] = b0["boot"] if b0["boot"] in kinds else kinds[wi % len(kinds)]
+                    arm = "all"  # the boot hook runs once per state; boot spies are armed throughout
+                else:
+                    w = plain[carry]
+                case = {"world": w, "faults": [[name, exc_name] + ([mode] if mode == "after" else [])]}
+                arm = arm_for([name], arm)
+                if arm != "all" and len(w["turns"]) >= 2:
+                    case["arm"] = arm
+                _guarded(rec, case, check_faults, seen_sigs)
     if shard == 0:
         probe_undeclared(rec, seed)
         for dbl in ("logs_append", "bundle_keys", "prompt_str"):
@@ -1067,20 +1353,26 @@ def compatible(names):
 def combo_cases(draw):
     k = draw(st.sampled_from([2, 2, 3]))
     names = draw(st.lists(st.sampled_from(SITE_NAMES), min_size=k, max_size=k, unique=True).filter(compatible))
-    excs = [draw(st.sampled_from(EXC_NAMES)) for _ in names]
+    excs = [draw(st.sampled_from(EXC_NAMES + EXC_NAMES + EXC_EXTRA)) for _ in names]
     modes = [draw(st.sampled_from(["before", "before", "after"])) if (nm in AFTER_OK and SITES[nm]["group"] != "boot") else "before"
              for nm in names]
     wseed = draw(st.integers(0, 10 ** 6))
     boot = any("boot" in SITES[n]["needs"] for n in names)
-    w = gen_world(random.Random(wseed), boot=boot)
+    w = gen_world(random.Random(wseed), boot=boot, carry=draw(st.sampled_from([None, True])))
     if boot:
         kinds = ["none", "garbage", "own"]
         for nme in names:
             kinds = [k for k in kinds if k in BOOT_KINDS.get(nme, kinds)]
         w["boot"] = draw(st.sampled_from(kinds or ["own"]))
-    if draw(st.booleans()):
+    if not w.get("carry") and draw(st.booleans()):
         w["turns"] = w["turns"][:1]
-    return {"world": w, "faults": [[n, e] + ([m] if m == "after" else []) for n, e, m in zip(names, excs, modes)]}
+    if draw(st.sampled_from([False, False, False, False, False, False, True])):
+        w = sparsify(w)
+    case = {"world": w, "faults": [[n, e] + ([m] if m == "after" else []) for n, e, m in zip(names, excs, modes)]}
+    arm = arm_for(names, draw(st.sampled_from(["all", "all", "first", "last"])))
+    if arm != "all" and len(w["turns"]) >= 2:
+        case["arm"] = arm
+    return case
 
 
 def sub_combos(rec, seed, shard, nshards, n=60, shrink=True):
@@ -1135,11 +1427,26 @@ def boot_classes(rng: random.Random):
     out.append(("delta_bad_baseline", True, [
         {"name": "snapshot-5.full.json", "kind": "file", "text": '{"mode": "full", "etag_to": "5"}'},
         {"name": "snapshot-6.delta.json", "kind": "file", "text": json.dumps({"mode": "delta", "delta_of": "5", "etag_to": "6"}) + "\n" + "{}"}]))
+    # delta whose baseline exists only as (undecodable) .zst; delta without baseline whose sibling full is not a full snapshot
+    _delta = json.dumps({"mode": "delta", "delta_of": "5", "etag_from": "5", "etag_to": "6"}) + "\n" + json.dumps({"_adds": {"version_etag": "6"}})
+    out.append(("delta_zst_baseline", True, [
+        {"name": "snapshot-5.full.json.zst", "kind": "file", "hex": bytes(rng.randrange(256) for _ in range(40)).hex()},
+        {"name": "snapshot-6.delta.json", "kind": "file", "text": _delta}]))
+    out.append(("delta_sibling_full_garbage", True, [
+        {"name": "snapshot-6.full.json", "kind": "file", "text": rng.choice(['{"mode": "full", "etag_to": "6"}\n[1]', '{"mode": "full"', "[]", '{"mode": "delta", "etag_to": "6"}\n7'])},
+        {"name": "snapshot-6.delta.json", "kind": "file", "text": _delta}]))
     f("", "directory", True, {}, fname=rng.choice(["snap_000007.json", "state_zz.json", "x.json"]), kind="dir")
     out.append(("directory", True, [{"name": "snap_000009.json", "kind": "dir", "child": True}]))
     out.append(("dangling_symlink", True, [{"name": "snap_000001.json", "kind": "symlink", "target": "nowhere.json"}]))
     out.append(("symlink_loop", True, [{"name": "state_zz.json", "kind": "symlink", "target": "state_zz.json"}]))
     f("", "unreadable", True, {"gen": "own"}, kind="unreadable")
+    # file NAMES: 'snap_<digits>.json' is parsed with int(); str.isdigit() accepts characters int() rejects ('²') and non-ASCII digits
+    f("", "weird_name", True, {"text": rng.choice(["[1, 2, 3]", "{", ""])}, fname=rng.choice(["snap_².json", "snap_١٢.json", "snap_１２.json"]))
+    # the picked file is garbage, a perfectly valid snapshot sits next to it but is not the latest (completion only: whether a
+    # loader may fall back to the older file is not C20's business)
+    out.append(("garbage_picked_valid_unpicked", False, [
+        {"name": "snap_000009.json", "kind": "file", "text": rng.choice(["[1, 2, 3]", "\"snapshot\"", "17", '{"version_etag": "9", "store"', "true"])},
+        {"name": "state_zz.json", "kind": "file", "gen": "own"}]))
     # ---- valid JSON objects: only completion is demanded
     f("", "foreign_object", False, {"text": json.dumps(rng.choice([{}, {"name": "pkg", "version": "1.0.0", "dependencies": {"a": "^1"}},
                                                                    {"version_etag": "77"}, {"a": {"b": {"c": [1, 2, {"d": None}]}}},
@@ -1290,7 +1597,11 @@ def check_bootfile(case, rec=None, labels_extra=()):
     for k in FIVE:
         if f["counts"][k] != n:
             raise Violation(f"{n} turns completed but {k} holds {f['counts'][k]} records (boot class {cls})", case, f"boot-records:{cls}:{k}")
-    labels = [f"class:{cls}", "strict" if case["strict"] else "completion_only"] + list(labels_extra)
+    labels = [f"class:{cls}", "strict" if case["strict"] else "completion_only", f"turns={n}"] + list(labels_extra)
+    if w.get("carry"):
+        labels.append("carry")
+    if f["loader_calls"] > 1:
+        labels.append("loader_ran_more_than_once")
     if case["strict"]:
         b = _baseline(w, on, None, True, "ok")
         if any(e is not None for e in b["exc"]):
@@ -1304,6 +1615,13 @@ def check_bootfile(case, rec=None, labels_extra=()):
         if f["version"] != b["version"]:
             raise Violation(f"state version {f['version']!r} after garbage boot entry class {cls}, {b['version']!r} with an empty dir",
                             case, f"boot-diff:{cls}:version")
+        if f["lines"] != b["lines"]:
+            raise Violation(f"TurnResult.line differs from the empty-snapshot-dir run with garbage boot entry class {cls}: "
+                            f"{f['lines']!r} vs {b['lines']!r}", case, f"boot-diff:{cls}:line")
+        if w.get("carry"):
+            t2recs = [json.loads(ln) for ln in b["logs"]["t2.jsonl"].splitlines()]
+            if any(r.get("hybrid") for r in t2recs[1:]):
+                labels.append("carry:hybrid_later_turn")
     if rec is not None:
         opened = bool(f["boot_reads"])
         picked = opened or any(e["kind"] in ("dir", "symlink") for e in entries)
@@ -1354,8 +1672,8 @@ def boot_contents(draw):
         data = (json.dumps(draw(_JSON)) + "\n" + json.dumps(draw(_JSON))).encode()
     name = draw(st.sampled_from(["state_A.json", "state_zz.json", "snap_000123.json", "anything.json"]))
     wseed = draw(st.integers(0, 10 ** 6))
-    w = gen_world(random.Random(wseed), boot=True)
-    if draw(st.booleans()):
+    w = gen_world(random.Random(wseed), boot=True, carry=draw(st.sampled_from([None, True])))
+    if not w.get("carry") and draw(st.booleans()):
         w["turns"] = w["turns"][:1]
     strict = classify_content(data) == "garbage"
     return {"world": w, "cls": "generated:" + kind, "strict": strict, "entries": [{"name": name, "kind": "file", "hex": data.hex()}]}
@@ -1367,7 +1685,9 @@ def sub_bootfiles(rec, seed, shard, nshards, worlds=2, n=60, shrink=True):
     idx = 0
     seen_sigs = set()
     for wi in range(worlds):
-        w = gen_world(rng, boot=True)
+        # every second world carries state across turns (GEL learning -> hybrid rerank of the next turn): a loader failure whose
+        # effect only shows from turn 2 on (re-run, state reset, half-imported fields) then differs from the empty-dir run
+        w = gen_world(rng, boot=True, carry=(wi % 2 == 1))
         for cls, strict, entries in boot_classes(rng):
             idx += 1
             if idx % nshards != shard:
@@ -1389,8 +1709,9 @@ def sub_bootfiles(rec, seed, shard, nshards, worlds=2, n=60, shrink=True):
 def fuzz_case(data: bytes) -> dict:
     """bytes -> bootfile case (shared by the fuzz target and its replay). First byte picks the world and the file name."""
     sel = data[0] if data else 0
-    w = gen_world(random.Random(1000 + (sel & 3)), boot=True)
-    w["turns"] = w["turns"][:1]
+    multi = bool((sel >> 4) & 1)  # bit 4: two turns on the one state with the cross-turn consumers on
+    w = gen_world(random.Random(1000 + (sel & 3)), boot=True, carry=multi)
+    w["turns"] = w["turns"][:2] if multi else w["turns"][:1]
     w["profile"] = {"graph": True, "hybrid": True}
     name = ["state_A.json", "snap_000123.json", "anything.json", "state_zz.json"][(sel >> 2) & 3]
     body = data[1:]
@@ -1419,7 +1740,8 @@ def sub_boot_fuzz(rec, seed, shard, nshards, runs=300):
         os.makedirs(corpus)
         own = own_snapshot_bytes()
         seeds = [b"\x00" + own, b"\x05" + own[: len(own) // 2], b"\x02[1,2]", b"\x03{\"version_etag\": [1]}",
-                 b"\x01" + json.dumps({"mode": "delta", "delta_of": "5", "etag_to": "6"}).encode() + b"\n{}"]
+                 b"\x01" + json.dumps({"mode": "delta", "delta_of": "5", "etag_to": "6"}).encode() + b"\n{}",
+                 b"\x12[1,2]", b"\x16\"snapshot\"", b"\x1117", b"\x10" + own, b"\x1b" + b'{"mode": "full"}\n[1, 2, 3]']
         for i, s in enumerate(seeds):
             with open(os.path.join(corpus, f"seed{i}"), "wb") as f:
                 f.write(s)
@@ -1484,7 +1806,7 @@ def replay_boot(case):
 
 
 SUBCHECKS = [
-    Sub("sites", sub_sites, quick={"worlds": 3}, thorough={"worlds": 60}, shards_quick=4, shards_thorough=16, replay=replay_faults),
+    Sub("sites", sub_sites, quick={"worlds": 3}, thorough={"worlds": 48}, shards_quick=4, shards_thorough=16, replay=replay_faults),
     Sub("combos", sub_combos, quick={"n": 40}, thorough={"n": 400}, shards_quick=2, shards_thorough=8, replay=replay_faults),
     Sub("bootfiles", sub_bootfiles, quick={"worlds": 2, "n": 30}, thorough={"worlds": 12, "n": 500}, shards_quick=2, shards_thorough=8,
         replay=replay_boot),
